@@ -257,7 +257,7 @@ ARENA = {
         note='frame and contents proved for allocate/allocate_zeroed/fill, all non-writing operations and every branch of grow(_zeroed)/shrink incl. that the bytes of all other live blocks are untouched'),
     'C03': dict(
         x=['scope-exit-did-not-restore-allocated', 'scope-exit-did-not-restore-position', 'scope-exit-released-a-chunk',
-           'reset-to-start-did-not-rewind-to-the-first-chunk', 'block-contents-changed', 'panic',
+           'reset-to-start-did-not-rewind-to-the-first-chunk', 'scoped-aligned-exit-not-exactly-entry-position', 'block-contents-changed', 'panic',
            'reset-loop-requested-with-room', 'reset-loop-keeps-requesting', 'reset-loop-left-more-than-one-chunk',
            'reset-loop-survivor-shrank', 'reset-loop-bound-exceeded'],
         mism=['stats', 'base-allocator-events'],
